@@ -4,12 +4,16 @@ namespace ZoektModel.C12
 open ZoektModel ZoektModel.Proto
 
 /-! line protocol
-  input : `run <delta> <compound> <compMeta> <shardMerging> <nNew> <oldMeta bits|-> <ro|-> <do|-> <fails|-> <k|end>`
+  input : `run <delta> <compound> <compMeta> <shardMerging> <nNew> <oldMeta bits|-> <ro|-> <do|-> <fails|-> <k|end> <e2e>`
           `ro`  = final names in the order the implementation attempted the renames (`s0,m0,…`)
           `do`  = paths in the order the implementation worked through `toDelete` (`s1,m0,cs,cm`)
           `fails` = indices (0-based, over the fallible renames/removes in order) of the injected failures
           `k`   = number of rename/unlink system calls that had been issued when the directory was observed
-  output: `ops=<trace> res=<ok|err|-> dir=<listing> view=<old|new|mix>`
+          `e2e` = what a real searcher over the observed directory saw of the repository: `old`, `new` or `mix`
+                  (harness oracle over search.NewDirectorySearcher); used to tie the model's loader view to the real loader:
+                  whenever the model's view of the observed directory is `old` (`new`), the real searcher must see old (new).
+                  The model's view is finer than the searcher's (it compares files, not documents), so the converse may fail.
+  output: `ops=<trace> res=<ok|err|-> dir=<listing>`
 -/
 
 def showPath : Path → String
@@ -111,7 +115,7 @@ def isPermOf {α} [DecidableEq α] (a b : List α) : Bool :=
 def handle (line : String) : String :=
   let (inp, impl) := splitCase line
   match fields inp with
-  | ["run", d, c, cm, sm, n, om, ro, dor, fl, k] =>
+  | ["run", d, c, cm, sm, n, om, ro, dor, fl, k, e2e] =>
     match bool? d, bool? c, bool? cm, bool? sm, n.toNat?, parseBits om, parsePaths ro, parsePaths dor, natList? fl with
     | some d, some c, some cm, some sm, some n, some om, some ro, some dor, some fl =>
       let s : Scn := ⟨d, c, cm, sm, n, om⟩
@@ -133,14 +137,16 @@ def handle (line : String) : String :=
           let pre := if isEnd then full else takeRU0 kk full
           let dir := applyAll (oldDir s) (successOps pre)
           let ops := pre.filterMap showOp
-          s!"ops={if ops.isEmpty then "-" else ",".intercalate ops} res={if isEnd then (if err then "err" else "ok") else "-"} dir={showDir s dir} view={classify s dir}"
+          s!"ops={if ops.isEmpty then "-" else ",".intercalate ops} res={if isEnd then (if err then "err" else "ok") else "-"} dir={showDir s dir}"
       -- the property, evaluated on the implementation's observation
       match fields impl with
-      | [_, ires, idir, _] =>
+      | [_, ires, idir] =>
         if !(ires.startsWith "res=" && idir.startsWith "dir=") then badCase "impl fields" else
         match parseDir (idir.drop 4).toString with
         | none => badCase "impl dir"
         | some id =>
+          let mv := classify s id
+          if mv != "mix" && mv != e2e then specFail model ("loader-model:" ++ mv ++ "-but-searcher-sees-" ++ e2e) else
           match checkP s isEnd ((ires.drop 4).toString == "ok") (!fl.isEmpty) id with
           | some key => specFail model key
           | none => answer model
